@@ -194,8 +194,9 @@ Print Assumptions C20_truncation_examples.
    type, class, id and the last OPT's EDNS version are read from the message by [view] / [msg_extra]
    (first question; root, 0, 0 when there is none, as coredns request.Name / QType / QClass).
    [whole_server ulen base rlen optlen br ccfg g c now cfg e r] := server ... (db_serve br ccfg g c now) cfg e r.
-   [hfinal mx ccfg (g0, []) h] : the state (generation, cache) a sequential history h leaves behind, all
-   queries arriving with max answer mx (Properties/C12.v, composition part, for the vocabulary). *)
+   [hfinal ccfg (g0, []) h] : the state (generation, cache) a sequential history h of queries (each arriving
+   with its listener's max answer), reloads and failed reloads leaves behind (Properties/C12.v, composition
+   part, for the vocabulary: refines_variant, refines_mod_case, gen_declares, hist_wire, hist_max). *)
 From DnsV Require Model.Cache Model.Serve Model.LookupV1.
 From DnsV Require Import Spec.Answer Spec.Rows Spec.KeysV2 Proofs.ZoneCut Proofs.NoPanic Proofs.FileLevel.
 From DnsV Require Import Model.Compose Proofs.Compose Proofs.ComposeChain Proofs.ComposeExample.
@@ -205,17 +206,46 @@ From DnsV Require Import Model.Compose Proofs.Compose Proofs.ComposeChain Proofs
    not name the whoami domain (16-bit type and class, a name that packs): the listener's reply is the
    rendering of what the database handler writes for the request's view [rq] with THIS listener's max
    answer, and that - when it is a reply to a supported EDNS version - refines Spec/Answer.spec_response of
-   the records declared by the generation in force, for the client's location, modulo the letter case of
-   owner names (exactly, unless it is a cache hit).
-   By C20_chain_transparent, C12_cached_handler_is_spec's invariant, C01_response_is_spec / C01_file_level. *)
+   the records declared by the generation in force, for the client's location: exactly unless it is a
+   cache hit; a hit modulo the letter case of owner names and for the max answer of the query the entry was
+   computed for (the cache is shared by all listeners and its key holds no max answer:
+   C12_max_answer_shared_through_cache).
+   By C20_chain_transparent, the cache invariant behind C12_cached_handler_is_spec, C01_response_is_spec /
+   C01_file_level. *)
 Theorem C20_server_is_spec : forall ulen base rlen optlen br ccfg h g0 now cfg e r q0 rest w,
   hist_wire h ->
   accepted cfg r = true -> mq r = q0 :: rest ->
   any_refused cfg q0 = false -> whoami_matched cfg q0 = false ->
   br_wire br (qname q0) = Some w -> qtype q0 < 65536 -> qclass q0 < 65536 ->
   let mx := max_answer cfg in
-  let g := fst (hfinal mx ccfg (g0, []) h) in
-  let c := snd (hfinal mx ccfg (g0, []) h) in
+  let g := fst (hfinal ccfg (g0, []) h) in
+  let c := snd (hfinal ccfg (g0, []) h) in
+  let rq := Cache.mkReq (br_from br e r) w (qtype q0) (qclass q0) (msg_extra r) in
+  let f := snd (fst (handle mx ccfg g c now rq)) in
+  let o := snd (handle mx ccfg g c now rq) in
+  whole_server ulen base rlen optlen br ccfg g c now cfg e r = br_render br e r (f (br_ecs br e r g)) /\
+  forall recs ecs y n,
+    let L := loc_of_num (locate g rq) in
+    gen_declares g L recs ->
+    (req_edns rq = None \/ req_edns rq = Some 0) ->
+    wf_name n -> nlen (pack n) <= 255 -> LookupV1.lower_bytes w = pack n ->
+    f ecs = Serve.OReply y ->
+    located g rq = true /\
+    (exists a mx', refines_variant L recs n (query_of rq) ecs a mx' y) /\
+    (o <> Cache.OHit -> response_refines L recs n (query_of rq) ecs mx y).
+Proof. exact server_is_spec. Qed.
+Print Assumptions C20_server_is_spec.
+
+(* when all earlier queries arrived with this listener's max answer (one listener, or listeners configured
+   alike): the listener's own max answer on hits too *)
+Theorem C20_server_is_spec_same_max : forall ulen base rlen optlen br ccfg h g0 now cfg e r q0 rest w,
+  hist_wire h -> hist_max (max_answer cfg) h ->
+  accepted cfg r = true -> mq r = q0 :: rest ->
+  any_refused cfg q0 = false -> whoami_matched cfg q0 = false ->
+  br_wire br (qname q0) = Some w -> qtype q0 < 65536 -> qclass q0 < 65536 ->
+  let mx := max_answer cfg in
+  let g := fst (hfinal ccfg (g0, []) h) in
+  let c := snd (hfinal ccfg (g0, []) h) in
   let rq := Cache.mkReq (br_from br e r) w (qtype q0) (qclass q0) (msg_extra r) in
   let f := snd (fst (handle mx ccfg g c now rq)) in
   let o := snd (handle mx ccfg g c now rq) in
@@ -229,16 +259,16 @@ Theorem C20_server_is_spec : forall ulen base rlen optlen br ccfg h g0 now cfg e
     located g rq = true /\
     refines_mod_case L recs n (query_of rq) ecs mx y /\
     (o <> Cache.OHit -> response_refines L recs n (query_of rq) ecs mx y).
-Proof. exact server_is_spec. Qed.
-Print Assumptions C20_server_is_spec.
+Proof. exact server_is_spec_same_max. Qed.
+Print Assumptions C20_server_is_spec_same_max.
 
-(* the same for any state satisfying the cache invariant (every entry is the canonical outcome of the
-   current generation for its key and some asker's spelling): [Inv mx Pa g c] *)
-Theorem C20_server_is_spec_state : forall ulen base rlen optlen br ccfg Pa g c now cfg e r q0 rest w,
-  Inv (max_answer cfg) Pa g c ->
+(* the same for any state satisfying the cache invariant [Inv Pq g c]: every entry is the canonical outcome
+   of the current generation for its key, some asker's spelling a and some asker's max answer m with Pq a m *)
+Theorem C20_server_is_spec_state : forall ulen base rlen optlen br ccfg Pq g c now cfg e r q0 rest w,
+  Inv Pq g c ->
   accepted cfg r = true -> mq r = q0 :: rest ->
   any_refused cfg q0 = false -> whoami_matched cfg q0 = false ->
-  br_wire br (qname q0) = Some w -> Pa w -> qtype q0 < 65536 -> qclass q0 < 65536 ->
+  br_wire br (qname q0) = Some w -> Pq w (max_answer cfg) -> qtype q0 < 65536 -> qclass q0 < 65536 ->
   let mx := max_answer cfg in
   let rq := Cache.mkReq (br_from br e r) w (qtype q0) (qclass q0) (msg_extra r) in
   let f := snd (fst (handle mx ccfg g c now rq)) in
@@ -251,13 +281,13 @@ Theorem C20_server_is_spec_state : forall ulen base rlen optlen br ccfg Pa g c n
     wf_name n -> nlen (pack n) <= 255 -> LookupV1.lower_bytes w = pack n ->
     f ecs = Serve.OReply y ->
     located g rq = true /\
-    refines_mod_case L recs n (query_of rq) ecs mx y /\
+    (exists a mx', Pq a mx' /\ refines_variant L recs n (query_of rq) ecs a mx' y) /\
     (o <> Cache.OHit -> response_refines L recs n (query_of rq) ecs mx y).
 Proof. exact server_is_spec_state. Qed.
 Print Assumptions C20_server_is_spec_state.
 
 (* the empty cache satisfies the invariant, a purge restores it (so does every step: Proofs/Compose.handle_step) *)
-Theorem C20_inv_empty : forall mx Pa g, Inv mx Pa g [].
+Theorem C20_inv_empty : forall Pq g, Inv Pq g [].
 Proof. exact Inv_nil. Qed.
 Print Assumptions C20_inv_empty.
 
@@ -272,8 +302,8 @@ Print Assumptions C20_server_panic_origin.
 (* C20_server_never_panics.  With the serve_mux guard in place the whole server never panics: for every
    listener configuration, connection and request (with or without a question, accepted or not, any
    opcode, ANY, whoami, any EDNS version, located or not), in every state reached by a sequential history
-   of requests off the wire ([hist_wire_names]: 16-bit type and class, wire-valid names), whatever the
-   cache holds - under C13's store guard for the generation in force (v2 keys only: wf_store_v2, which every
+   of requests off the wire ([hist_wire_names]: 16-bit type and class, wire-valid names; any max answers),
+   whatever the cache holds - under C13's store guard for the generation in force (v2 keys only: wf_store_v2, which every
    compiled database satisfies: C13_compiled_store_wf) and the two named hypotheses on the miekg side:
      wire_ok br   : what PackDomainName returns is an uncompressed wire name (labels 1..63, <= 255 octets)
      render_ok br : writing a reply panics only if the handler's outcome was a panic (or out of fuel)
@@ -281,9 +311,8 @@ Print Assumptions C20_server_panic_origin.
    C13_no_panic. *)
 Theorem C20_server_never_panics : forall ulen base rlen optlen br ccfg h g0 now cfg e r,
   wire_ok br -> render_ok br -> hist_wire_names h ->
-  let mx := max_answer cfg in
-  let g := fst (hfinal mx ccfg (g0, []) h) in
-  let c := snd (hfinal mx ccfg (g0, []) h) in
+  let g := fst (hfinal ccfg (g0, []) h) in
+  let c := snd (hfinal ccfg (g0, []) h) in
   (g_backend g = LookupV1.RDB2 -> wf_store_v2 (g_store g) = true) ->
   (forall q0 rest, mq r = q0 :: rest -> qtype q0 < 65536 /\ qclass q0 < 65536) ->
   whole_server ulen base rlen optlen br ccfg g c now cfg e r <> Panic.
@@ -292,7 +321,7 @@ Print Assumptions C20_server_never_panics.
 
 Theorem C20_server_never_panics_state : forall ulen base rlen optlen br ccfg g c now cfg e r,
   wire_ok br -> render_ok br ->
-  Inv (max_answer cfg) wire_asked g c ->
+  Inv wire_asked g c ->
   (g_backend g = LookupV1.RDB2 -> wf_store_v2 (g_store g) = true) ->
   (forall q0 rest, mq r = q0 :: rest -> qtype q0 < 65536 /\ qclass q0 < 65536) ->
   whole_server ulen base rlen optlen br ccfg g c now cfg e r <> Panic.
@@ -333,6 +362,5 @@ Print Assumptions C20_whole_server_example.
 
 (* What remains outside.  The bridge functions are parameters: that miekg's Unpack / PackDomainName, the
    location lookup and the message writer behave as [wire_ok] / [render_ok] say is the differential run's
-   matter (C13, C20 harnesses), as is the tie of [view] to coredns request.Request.  max answer is the same
-   for all queries of the history that built the cache (one listener, or listeners configured alike).
+   matter (C13, C20 harnesses), as is the tie of [view] to coredns request.Request.
    ANY under refusal and the whoami name are C20_any_is_hinfo_only / C20_whoami_scope (database not consulted). *)
